@@ -132,10 +132,10 @@ int main(int argc, char** argv) {
     if (!wasiFileDescriptorAdd(-1, (char*)sandbox, NULL)) return 2;       /* descriptor 3: the pre-opened sandbox */
     sc = fopen(argv[2], "r");
     while (sc && fgets(line, sizeof line, sc)) {
-        char cmd[32], abi = 'p'; char* tok[40]; int nt = 0, k; char* save = NULL, *p;
+        char cmd[32], abi = 'p'; char* tok[80]; int nt = 0, k; char* save = NULL, *p;
         U32 err = 0;
         line[strcspn(line, "\n")] = 0;
-        for (p = strtok_r(line, " ", &save); p && nt < 40; p = strtok_r(NULL, " ", &save)) tok[nt++] = p;
+        for (p = strtok_r(line, " ", &save); p && nt < 80; p = strtok_r(NULL, " ", &save)) tok[nt++] = p;
         if (nt == 0) continue;
         strncpy(cmd, tok[0], 31); cmd[31] = 0;
         if (nt > 1) abi = tok[1][0];
@@ -148,14 +148,15 @@ int main(int argc, char** argv) {
             U32 len = putpath(PATH1, tok[3]); memcpy(before, mem->data, MEMSIZE);
             err = CALL(abi, path_open, (NULL, (U32)strtoul(tok[2], 0, 10), 0, PATH1, len, (U32)strtoul(tok[4], 0, 10), strtoull(tok[5], 0, 16), strtoull(tok[5], 0, 16), (U32)strtoul(tok[6], 0, 10), R1));
         } else if (!strcmp(cmd, "write") || !strcmp(cmd, "pwrite")) {
-            int pw = cmd[0] == 'p', base = pw ? 4 : 3, n = nt - base;
-            for (k = 0; k < n; k++) { U32 l = (U32)unhex(tok[base + k], mem->data + WBUF + 0x100 * k); i32_store(mem, IOV + 8 * k, WBUF + 0x100 * k); i32_store(mem, IOV + 8 * k + 4, l); }
+            /* up to 16 segments: 256 bytes apart; more (up to 64): 16 bytes apart */
+            int pw = cmd[0] == 'p', base = pw ? 4 : 3, n = nt - base; U32 S = n > 16 ? 0x10 : 0x100;
+            for (k = 0; k < n; k++) { U32 l = (U32)unhex(tok[base + k], mem->data + WBUF + S * k); i32_store(mem, IOV + 8 * k, WBUF + S * k); i32_store(mem, IOV + 8 * k + 4, l); }
             memcpy(before, mem->data, MEMSIZE);
             err = pw ? CALL(abi, fd_pwrite, (NULL, (U32)strtoul(tok[2], 0, 10), IOV, (U32)n, strtoull(tok[3], 0, 10), R1))
                      : CALL(abi, fd_write, (NULL, (U32)strtoul(tok[2], 0, 10), IOV, (U32)n, R1));
         } else if (!strcmp(cmd, "read") || !strcmp(cmd, "pread")) {
-            int pr = cmd[0] == 'p', base = pr ? 4 : 3, n = nt - base;
-            for (k = 0; k < n; k++) { i32_store(mem, IOV + 8 * k, RBUF + 0x100 * k); i32_store(mem, IOV + 8 * k + 4, (U32)strtoul(tok[base + k], 0, 10)); memset(mem->data + RBUF + 0x100 * k, 0xEE, 0x100); }
+            int pr = cmd[0] == 'p', base = pr ? 4 : 3, n = nt - base; U32 S = n > 16 ? 0x10 : 0x100;
+            for (k = 0; k < n; k++) { i32_store(mem, IOV + 8 * k, RBUF + S * k); i32_store(mem, IOV + 8 * k + 4, (U32)strtoul(tok[base + k], 0, 10)); memset(mem->data + RBUF + S * k, 0xEE, S); }
             memcpy(before, mem->data, MEMSIZE);
             err = pr ? CALL(abi, fd_pread, (NULL, (U32)strtoul(tok[2], 0, 10), IOV, (U32)n, strtoull(tok[3], 0, 10), R1))
                      : CALL(abi, fd_read, (NULL, (U32)strtoul(tok[2], 0, 10), IOV, (U32)n, R1));
